@@ -214,6 +214,31 @@ def oracle(tier, seed):
                     break
                 if len(samples) < 5 and stage == "after-user-override":
                     samples.append({"case": label, "stage": stage, "rate": text[:200]})
+    # reactions built through the API from Species objects that carry their own binding energy / yield (set with the setters): the
+    # values travel with the species into the rate text and into the rendered eb_<alias> constants
+    try:
+        from naunet.species import Species
+        from naunet.reactions.reaction import Reaction
+        from naunet.reactiontype import ReactionType as RT
+        from naunet.grains.rr07grain import RR07XGrain
+        from naunet.network import Network
+        from .native_ode import render, strip_comments
+        import re as _re
+        N.fresh()
+        ice = Species("#CO")
+        ice.binding_energy, ice.photon_yield = 1300.0, 0.02
+        N.fresh()
+        ice2 = Species("#CO")
+        ice2.binding_energy = 1300.0
+        net = Network([Reaction([ice2], [Species("CO")], alpha=1.0, reaction_type=RT.GRAIN_DESORB_THERMAL), Reaction([Species("CO")], [Species("#CO")], alpha=1.0, reaction_type=RT.GRAIN_FREEZE)], grain_model="hh93")
+        files = render(net, "cvode", "dense", "cpu", jac_pattern=False)
+        cases += 1
+        m = _re.search(r"eb_\w*CO\w*\s*=\s*([-+0-9.eE]+)\s*;", strip_comments(files.get("src/naunet_constants.cpp", "")))
+        if not m or abs(float(m.group(1)) - 1300.0) > 1e-9:
+            viol.append({"property": "C11", "case": "hh93/thermal", "stage": "species-object-with-own-values", "what": f"constant: the rendered binding-energy constant of #CO is {m.group(1) if m else 'missing'}, the species object carries 1300.0",
+                         "signature": "C11:hh93/thermal:species-object-with-own-values:constant"})
+    except Exception as e:
+        viol.append({"property": "C11", "case": "api-species-objects", "stage": "species-object-with-own-values", "what": f"raises: {type(e).__name__}: {e}", "signature": "C11:api-species-objects:raises"})
     N.fresh()
     return {"cases": cases, "distinct": cases, "violations": viol, "samples": samples,
             "bound": f"every implemented (dust model, process, species pair) case x {len(alphas)} coefficients x up to 3 stages of a user-override history, one deterministic parameter valuation",
